@@ -480,6 +480,59 @@ def lambda_programs():
 
 
 # =============================================================================================
+# singletons (zero value or host-provided), singleton parameters, trigger statements
+# =============================================================================================
+def singleton_programs():
+    progs = []
+    DEV = ("$Dev", "{ level: int, name: str }", Obj(level=I(0), name=S("")))
+    HOST = {"$Dev": (Obj(level=I(3), name=S("host")),
+                     {"k": "obj", "fs": {"level": {"k": "int", "v": "3"}, "name": {"k": "str", "s": "host"}}})}
+    LST = ("$Log", "[int]", List())
+    LHOST = {"$Log": (List(I(4), I(5)), {"k": "list", "es": [{"k": "int", "v": "4"}, {"k": "int", "v": "5"}]})}
+
+    def fns(main_body, extra=None):
+        d = {"get": Fn([], Block([], Mem(V("self"), "level")), ret="int", sps=[("self", "$Dev")]),
+             "set": Fn(["n"], Block([Expr(Asg(Mem(V("self"), "level"), V("n")))]), sps=[("self", "$Dev")]),
+             "both": Fn(["a", "b"], Block([], Bin("+", Bin("+", Bin("*", V("a"), I(100)), Bin("*", Mem(V("self"), "level"), I(10))), V("b"))),
+                        ret="int", sps=[("self", "$Dev")]),
+             "name_of": Fn([], Block([], Mem(V("self"), "name")), ret="str", sps=[("self", "$Dev")]),
+             "main": Fn([], Block(main_body))}
+        d.update(extra or {})
+        return d
+
+    bodies = {
+        "read_write": [Print(Mem(V("$Dev"), "level"), Mem(V("$Dev"), "name")), Expr(Call("set", I(7))),
+                       Print(Call("get"), Mem(V("$Dev"), "level")), Print(Call("both", I(1), I(2))), Print(Call("name_of"))],
+        "in_loop": [For("i", Range(I(0), I(4)), Block([Expr(Call("set", Bin("+", Call("get"), V("i")))), Print(Call("get"))])),
+                    Print(Mem(V("$Dev"), "level"))],
+        "in_expression": [Print(Bin("-", I(10), Call("get"))), Print(Bin("+", Call("both", I(1), I(2)), Call("both", I(3), I(4)))),
+                          Print(List(Call("get"), Call("get")))],
+        "assign_direct": [Expr(Asg(Mem(V("$Dev"), "level"), I(9))), Print(Call("get")), Expr(Asg(Mem(V("$Dev"), "name"), S("n2"))),
+                          Print(Call("name_of"))],
+    }
+    for name, body in bodies.items():
+        for hosted in (False, True):
+            progs.append(Program("sing_%s_%s" % (name, "host" if hosted else "zero"), fns(body), sings=[DEV],
+                                 host=HOST if hosted else None,
+                                 feats={"family": "singleton", "template": name, "hosted": hosted}))
+    # a list singleton
+    lf = {"add": Fn(["n"], Block([Expr(MCall(V("log"), "push", V("n")))], MCall(V("log"), "len")), ret="int", sps=[("log", "$Log")]),
+          "main": Fn([], Block([Print(Call("add", I(1))), Print(Call("add", I(2))), Print(V("$Log"))]))}
+    for hosted in (False, True):
+        progs.append(Program("sing_list_%s" % ("host" if hosted else "zero"), lf, sings=[LST], host=LHOST if hosted else None,
+                             feats={"family": "singleton", "template": "list", "hosted": hosted}))
+    # trigger statements: callback, event and arguments (evaluated in order) reach the host
+    tf = {"cb": Fn(["elapsed"], Block([Print(S("cb"), V("elapsed"))]), event=True),
+          "p": Fn(["n"], Block([Print(S("p"), V("n"))], V("n")), ret="int"),
+          "main": Fn([], Block([Trigger("cb", "minute", Bin("+", I(5), I(1))),
+                                For("i", Range(I(0), I(3)), Block([Trigger("cb", "minute", Bin("*", V("i"), I(2)))])),
+                                Trigger("cb", "minute", Call("p", I(9))), Print(S("end"))]))}
+    progs.append(Program("trig_basic", tf, imports=["import trigger minute from triggers;"],
+                         feats={"family": "singleton", "template": "trigger", "vm_only": True}))
+    return progs
+
+
+# =============================================================================================
 # random well-typed programs (seeded)
 # =============================================================================================
 class RandGen:
